@@ -331,12 +331,15 @@ def first_diff(exp, got):
     """which observable differs first between the model's expectation and the log of the rejected step"""
     if exp["out"]["p"] != got["out"]["p"]:
         return "panic"
-    if not exp.get("en", True):
-        return "cap-too-small"
     for e, g in zip(exp["st"], got["st"]):
-        for f in ("nil", "len", "cap"):
+        for f in ("nil", "len"):
             if e[f] != g[f]:
                 return f
+    if not exp.get("en", True):
+        return "cap-below-len"
+    for e, g in zip(exp["st"], got["st"]):
+        if e["cap"] != g["cap"]:
+            return "cap"
         if any(a != b and a != -1 for a, b in zip(e["c"], g["c"])):
             return "contents"
     if exp["out"]["r"] != got["out"]["r"]:
@@ -524,6 +527,7 @@ def slices_part(chk, exes, gen_results, thorough, sd):
     nontrivial = 0
     validated = 0
     informative = 0
+    rejected = {}
     for gname, (res, verdict) in tl.items():
         traces, meta, negs = built[gname]
         chk.add_tlc(res, "SliceTrace/" + gname)
@@ -573,17 +577,24 @@ def slices_part(chk, exes, gen_results, thorough, sd):
             validated += 1
             c, a = ops[step]
             opk = OPNAME[c]
-            for name, es in impl[:1]:
-                key = "slice:%s:%s:%s" % (TYPENAME[es], "app" if opk == "appn" else opk, what)
-                desc = ("%s element type %s: step %d of [%s] — the model %s, the program logged %s (first difference: %s)" % (
-                    name, TYPENAME[es], step + 1, show_script(t),
-                    "panics" if exp["out"]["p"] else "gives " + json.dumps(exp["st"], separators=(",", ":")),
-                    text.split(" / ")[step], what))
-                chk.reject(key, desc, {"configs": impl, "elem": TYPENAME[es], "script": show_script(t), "tokens": t, "nv": nv,
-                                       "rejected_step": step + 1, "operation": show_op(c, a), "model_expects": exp,
-                                       "program_logged": got, "full_log": text[:4000], "first_difference": what,
-                                       "origin": origin,
-                                       "stdin_line": "S %d 1 %d %s" % (es, nv, " ".join(map(str, t)))})
+            name, es = impl[0]
+            key = "slice:%s:%s:%s" % (TYPENAME[es], "app" if opk == "appn" else opk, what)
+            desc = ("%s, element type %s: step %d of [%s]: SliceModel %s, the program logged `%s` (first difference: %s)" % (
+                name, TYPENAME[es], step + 1, show_script(t),
+                "panics" if exp["out"]["p"] else "gives " + " ".join(
+                    "~" if x["nil"] else "%d:%d:%s" % (x["len"], x["cap"], ",".join(map(str, x["c"]))) for x in exp["st"]),
+                text.split(" / ")[step], what))
+            rejected.setdefault(key, []).append(
+                (len(t), t, desc, {"configs": impl, "elem": TYPENAME[es], "script": show_script(t), "tokens": t, "nv": nv,
+                                   "rejected_step": step + 1, "operation": show_op(c, a), "model_expects": exp,
+                                   "program_logged": got, "full_log": text[:4000], "first_difference": what,
+                                   "origin": origin,
+                                   "stdin_line": "S %d 1 %d %s" % (es, nv, " ".join(map(str, t)))}))
+    for key in sorted(rejected):
+        lst = sorted(rejected[key], key=lambda x: (x[0], x[1]))
+        n, t, desc, rep = lst[0]
+        rep["rejected_traces_with_this_key"] = len(lst)
+        chk.reject(key, desc + " [%d rejected traces of this kind]" % len(lst), rep)
     if informative == 0:
         raise C.Undecided("no informative negative control for SliceTrace (all originals were rejected)")
     chk.cov["negative_controls"] = chk.cov.get("negative_controls", 0) + informative
